@@ -241,8 +241,12 @@ def search(ctx, breaks):
     try:
         r = correspondence(ctx, model_available=True)
     except Exception as e:  # noqa
-        ctx.log("search failed: %s" % str(e)[-300:])
-        r = {"spec_failures": []}
+        ctx.log("search without the model (%s)" % str(e)[-200:].replace("\n", " "))
+        try:
+            r = correspondence(ctx, model_available=False)
+        except Exception as e2:  # noqa
+            ctx.log("search failed: %s" % str(e2)[-300:])
+            r = {"spec_failures": []}
     ctx.tier = old
     return r["spec_failures"][:3]
 
